@@ -544,5 +544,29 @@ def matches_on_type(fn, ty):
             and peel_ty(n["scrut"].get("t")) == ty]
 
 
+def fmt_pieces(bs):
+    """literal pieces of a `format_args!` template as rustc 1.97 encodes it in a byte string:
+    <len><bytes>.. for text, a byte >= 0x80 for an argument placeholder, 0 terminates"""
+    out = []
+    i = 0
+    n = len(bs)
+    while i < n and bs[i] != 0:
+        b = bs[i]
+        if b < 0x80:
+            out.append(bytes(bs[i + 1:i + 1 + b]).decode("utf-8", "replace"))
+            i += 1 + b
+        else:
+            out.append(None)  # placeholder
+            i += 1
+    return out
+
+
 def str_lits_in(node):
-    return [n.get("v") for n in subnodes(node) if n.get("k") == "Lit" and n.get("lk") == "str"]
+    """string literals below a node, including the literal pieces of format strings"""
+    out = []
+    for n in subnodes(node):
+        if n.get("k") == "Lit" and n.get("lk") == "str":
+            out.append(n.get("v"))
+        elif n.get("k") == "Lit" and n.get("lk") == "bytes" and "format_args" in (n.get("x") or ""):
+            out.extend(p for p in fmt_pieces(n.get("v") or []) if p is not None)
+    return out
